@@ -110,9 +110,9 @@ def purge_suite(ctx, vh):
 def classify_race(spec, row):
     """0: reply side, far from the boundary; 1: timer side, far (or no reply can come); 2: either."""
     T, d = spec["timeout"], spec["delay"]
-    if spec.get("order") == "reply-first":
+    if spec.get("order") in ("reply-first", "reply-held"):
         return 0
-    if spec.get("order") == "timer-first":
+    if spec.get("order") in ("timer-first", "timer-held"):
         return 1
     if spec.get("order"):
         return 2
@@ -137,13 +137,13 @@ def classify_race(spec, row):
     return 2
 
 
-def live_term(client, timeout, natt, conn, compliant, early, late, cls, invs, pending, usable):
+def live_term(client, timeout, natt, conn, compliant, early, late, cls, invs, pending, usable, hold=False):
     obs = g_outcomes(invs)
     if obs is None:
         obs = "[OTimeout; OTimeout]"
-    return "(mkLcase %s %s %s %s %s %s %s %s %s %s %s)" % (
+    return "(mkLcase %s %s %s %s %s %s %s %s %s %s %s %s)" % (
         gbool(client), gbool(timeout), gnat(natt), gnat(conn), gbool(compliant), g_args_list(early),
-        g_args_list(late), gnat(cls), obs, gbool(pending), gbool(usable))
+        g_args_list(late), gnat(cls), obs, gbool(hold), gbool(pending), gbool(usable))
 
 
 def race_cases(rows):
@@ -161,7 +161,8 @@ def race_cases(rows):
         # id of the emit under test: the others were emitted first
         my_id = s["many"]
         pending = my_id in r["pending"] or r["pending"] == [-1]
-        out.append((live_term(client, s["timeout"] > 0, s["natt"], conn, True, early, [], cls, r["invs"], pending, r["usable"]),
+        hold = bool(s.get("hold")) or s.get("order", "").endswith("-held")
+        out.append((live_term(client, s["timeout"] > 0, s["natt"], conn, True, early, [], cls, r["invs"], pending, r["usable"], hold),
                     {"spec": s, "invs": r["invs"], "peer_calls": r["peer_calls"], "pending": r["pending"], "usable": r["usable"]},
                     cls, r))
         for k, (invs, code) in enumerate(zip(r["others"], r["other_exp"])):
@@ -182,7 +183,7 @@ def raw_cases(rows):
         cls = 0 if early else 1
         pending = 0 in r["pending"] or r["pending"] == [-1]
         out.append((live_term(s["side"] == "client", s["timeout"] > 0, s["natt"], 0, False, early, late, cls,
-                              r["invs"], pending, r["usable"]),
+                              r["invs"], pending, r["usable"], bool(s.get("hold"))),
                     {"spec": s, "invs": r["invs"], "pending": r["pending"], "usable": r["usable"]}, cls, r))
     return out
 
@@ -248,8 +249,9 @@ def live_suite(ctx, vh, name, mode, mk_cases):
         key = None
         if "other" not in d:
             key = (name, json.dumps(s, sort_keys=True))
-        ctx.count(1, nontrivial_key=key if (cls == 2 or s.get("natt", 0) > 0 or s.get("dups", 0) > 1) else None,
-                  dist="%s:%s" % (name, ["reply-side", "timer-side", "boundary"][cls]))
+        held = bool(s.get("hold")) or s.get("order", "").endswith("-held")
+        ctx.count(1, nontrivial_key=key if (cls == 2 or held or s.get("natt", 0) > 0 or s.get("dups", 0) > 1) else None,
+                  dist="%s:%s%s" % (name, ["reply-side", "timer-side", "boundary"][cls], ":slow-callback" if held and "other" not in d else ""))
     ctx.sample({"suite": name, "case": cases[len(cases) // 2][1]})
     ctx.obligation("correspondence:" + name, "correspondence", not bad_a, "%d emits, %d not explained by the model" % (len(cases), len(bad_a)))
     ctx.obligation("oracle:" + name, "oracle", not bad_o, "%d emits, %d fail" % (len(cases), len(bad_o)))
